@@ -70,6 +70,28 @@ def dotExecs (rep : Option Replay) (n : Nat) : List RCmd :=
     if n > 1 then (if c.verb.isSome then [c.withCount n] else []) else [c]
   | some (.mode cmds reps) => modeExecs cmds reps n
 
+/-- The entry command as `.` with count `n` executes it (the count goes onto the motion of a change). -/
+def replayEntry (cmds : List RCmd) (n : Nat) : Option RCmd :=
+  if decide (n > 1) && isChangeEntry (splitEntry cmds).1
+    then (splitEntry cmds).1.map (fun c => c.withCount n) else (splitEntry cmds).1
+
+def entryFails (fails : RCmd → Bool) : Option RCmd → Bool
+  | some e => e.kind == .change && fails e
+  | none => false
+
+/-- `change_is_abandoned` seen from the repeat machine (fixes 24a4bde, 8fa59dd): `fails c` is the editor's
+verdict that the motion of the change `c` fails where the cursor is. A session replay whose entry is such a
+change hands nothing to the editor, exactly like typing it again would. -/
+def dotExecsA (fails : RCmd → Bool) (rep : Option Replay) (n : Nat) : List RCmd :=
+  match rep with
+  | some (.mode cmds reps) =>
+    if entryFails fails (replayEntry cmds n) then [] else modeExecs cmds reps n
+  | _ => dotExecs rep n
+
+/-- Typing a change: abandoned when its motion fails, else the session as typed. -/
+def sessionExecsA (fails : RCmd → Bool) (entry : RCmd) (typed : List RCmd) (exit : RCmd) (reps : Nat) : List RCmd :=
+  if entry.kind == .change && fails entry then [] else [entry] ++ (List.replicate (max reps 1) typed).flatten ++ [exit]
+
 /-- The recording: a repeatable command executed in normal/visual mode becomes the replay. -/
 def recordCmd (rep : Option Replay) (c : RCmd) : Option Replay :=
   if c.repeatable then some (.single c) else rep
